@@ -77,15 +77,18 @@ package fasthttp
 //@   ghost dTE bool = false
 //@   ghost dTrailer bool = false
 //@   ghost bodyGone bool = false
+//@   ghost postArgsGone bool = false
 //@   on call hostnameFromURLString:
 //@     effect anchors = anchors + 1
 //@   on call clientDoer.Do:
 //@     requires[credentials-only-to-trusted-host] creds ==> trusted
 //@     requires[bounded] sends <= maxRedirectsCount || maxRedirectsCount < 0
 //@     effect sends = sends + 1
+//@   on call getRedirectURL:
+//@     effect trusted = ndTrust
 //@   on call stripSensitiveHeadersOnRedirect(r, ih, ru):
 //@     requires[anchored-to-initial-host] sameSlice(ih, initialHost) && anchors == 1
-//@     effect trusted = ndTrust; creds = creds && ndTrust
+//@     effect creds = creds && trusted
 //@   on call RequestHeader.IsGet -> r:
 //@     returns isGet
 //@   on call RequestHeader.IsHead -> r:
@@ -99,11 +102,13 @@ package fasthttp
 //@     effect dTE = dTE || eq(k, "Transfer-Encoding"); dTrailer = dTrailer || eq(k, "Trailer")
 //@   on call Request.ResetBody:
 //@     effect bodyGone = true
+//@   on call Args.Reset:
+//@     effect postArgsGone = true
 //@   end
 //@   loop 1:
-//@     iter ndTrust = *; dCL = false; dCT = false; dTE = false; dTrailer = false; bodyGone = false
+//@     iter ndTrust = *; dCL = false; dCT = false; dTE = false; dTrailer = false; bodyGone = false; postArgsGone = false
 //@     invariant[count] sends == redirectsCount && anchors == 1 && (redirectsCount <= maxRedirectsCount || redirectsCount == 0)
 //@     invariant[creds] creds ==> trusted
-//@     atend[see-other] statusCode == StatusSeeOther ==> (isGet || isHead) && dCL && dCT && dTE && dTrailer && bodyGone
+//@     atend[see-other] statusCode == StatusSeeOther ==> (isGet || isHead) && dCL && dCT && dTE && dTrailer && bodyGone && postArgsGone
 //@     atend[post-to-get] (statusCode == StatusMovedPermanently || statusCode == StatusFound) ==> !isPost
 //@   ensures[bounded-sends] maxRedirectsCount >= 0 ==> sends <= maxRedirectsCount + 1
